@@ -26,6 +26,13 @@ void env_native_cover(const char *what);
 #define COVER(c,msg)   do { if (c) env_native_cover(msg); } while (0)
 #endif
 
+#ifdef VERIF_CBMC
+#define DBG(...)  ((void)0)
+#else
+#include <stdio.h>
+#define DBG(...)  printf(__VA_ARGS__)
+#endif
+
 /* ---- replayable nondeterminism ------------------------------------------ */
 #ifndef ND_MAX
 #define ND_MAX 512
